@@ -395,6 +395,7 @@ theorem exec_bufExt (σ : State S) (c : Cmd S) : ResExt σ (exec σ c) := by
   | «show» v => simp only [exec]; rb; rp
   | idx v i => simp only [exec]; rb; rb; rp
   | idxflat v i => simp only [exec]; rb; rb; rp
+  | convat a f sr sc i => simp only [exec]; rb; rb; split; rp; exact resExt_throw _ _
   | eq a b => simp only [exec]; rb; rb; rp
   | same a b => simp only [exec]; rb; rb; rp
   | samegrad a b => simp only [exec]; rb; rb; rp
